@@ -756,7 +756,10 @@ def c16(tier, seed):
         for c1 in [('write', 'a_b'), ('append', 'a_b'), ('create_dir', 'a_b'), ('remove_file', 'a_b')]:
             for p2 in ([('remove_file', 'a_b'), ('remove_dir', 'a')], [('remove_dir', 'a_b'), ('remove_dir', 'a')], [('write', 'a_b'), ('remove_file', 'a_b')],
                        [('remove_dir', 'a'), ('create_dir', 'a')]):
-                two.append({'cfg': 'mem', 'universe': 'U3', 'shape': sh, 'programs': [[c1], list(p2)], 'mode': 'linearizable'})
+                two.append({'cfg': 'mem', 'universe': 'U3', 'shape': sh, 'programs': [[c1], list(p2)], 'mode': 'linearizable', 'final_listing': True})
+        for c1 in [('create_dir', 'a_b'), ('write', 'a_b'), ('remove_file', 'a_b'), ('remove_dir', 'a_b')]:
+            # a listing that races with a change of the listed directory, and is asked for again afterwards
+            two.append({'cfg': 'mem', 'universe': 'U3', 'shape': sh, 'programs': [[c1], [('read_dir', 'a'), ('read_dir', 'a')]], 'mode': 'linearizable', 'final_listing': True})
     ck.add(run_cases(prog, threads.run_concurrent_case, two), '1 call against a 2-call program on one directory (child, then parent), every interleaving')
     if extra:
         ck.add(run_cases(prog, threads.run_concurrent_case, extra), '2x2, 3x1 calls and adapters over MemoryFS (sampled programs, every interleaving)')
